@@ -4,7 +4,7 @@ From Coq Require Export String.
 From Coq Require Export Uint63.
 From Coq Require Import Ascii.
 From AGH Require Import Base.Run.
-From AGH Require Export Model.Migrate.
+From AGH Require Export Model.Migrate Model.MigrateLoad.
 (* not Local: the shard files contain string literals *)
 Open Scope string_scope.
 
@@ -117,13 +117,24 @@ Definition res_ok (r : res obj) (cls : Z) (out : obj) : bool :=
   | Panic => Z.eqb cls 3
   end.
 
+(** The statement of [C13_loadable_preserved], evaluated on the document at
+    hand: if the input is loadable at its version (as far as the keys the steps
+    touch go), so is what the model upgrades it to, in memory and as a file. *)
+Definition loadable_kept (top : option obj) (target : Z) (m : obj) : bool :=
+  let input := match top with None => [] | Some i => i end in
+  let cur := (zint (fv_val TInt (field_val TInt input "schema_version")) mod 2 ^ 64)%Z in
+  if (cur <=? 29)%Z && (target <=? 29)%Z then
+    implb (loadable (Z.to_nat cur) input)
+          (loadable (Z.to_nat target) m && loadable (Z.to_nat target) (norm_obj m))
+  else true.
+
 Definition case_ok (c : case) : bool :=
   match c with
   | CMig top target t cls out =>
       match migrate (mk_oracles t) top target with
       | OErr => Z.eqb cls 0
       | OSame => Z.eqb cls 1
-      | ONew m => Z.eqb cls 2 && val_eqb (norm (VObj m)) (VObj out)
+      | ONew m => Z.eqb cls 2 && val_eqb (norm (VObj m)) (VObj out) && loadable_kept top target m
       | OPanic => Z.eqb cls 3
       end
   | CMem m cur tgt t cls out =>
